@@ -31,6 +31,7 @@ func runC15(c *Ctx) {
 	info := c.info("afm")
 	read := c.fn("afm", "Read")
 	write := c.method("afm", "Metrics", "Write")
+	c.historyIndependence("AFM-HISTORY", 10, read, write)
 	types3 := map[string]*types.TypeName{"Metrics": c.typeObj("afm", "Metrics"), "GlyphInfo": c.typeObj("afm", "GlyphInfo"), "KernPair": c.typeObj("afm", "KernPair")}
 
 	// ---- field coverage
@@ -428,4 +429,93 @@ func firstN(s string, n int) string {
 		return s[:n]
 	}
 	return s
+}
+
+// historyIndependence: the functions reachable from the given API entry points use no
+// package-level state that can change after initialisation (caches, memo tables, counters): the
+// result of a write/read cycle is a function of the value alone, and a second cycle sees what
+// the first one saw.
+func (c *Ctx) historyIndependence(rule string, floor int, roots ...*ssa.Function) {
+	eff := c.effects()
+	written := map[string]string{}
+	for _, f := range c.modFuncs {
+		if f.Name() == "init" || strings.HasPrefix(f.Name(), "init#") {
+			continue
+		}
+		for g := range eff.of(f).Globals {
+			if _, ok := written[g]; !ok {
+				written[g] = c.fname(f)
+			}
+		}
+	}
+	reach := c.reachable(roots)
+	type use struct {
+		g  *ssa.Global
+		fn *ssa.Function
+		at ssa.Instruction
+	}
+	seen := map[string]bool{}
+	var fns []*ssa.Function
+	for f := range reach {
+		if c.inModule(f) {
+			fns = append(fns, f)
+		}
+	}
+	sort.Slice(fns, func(i, j int) bool { return c.fname(fns[i]) < c.fname(fns[j]) })
+	n := 0
+	for _, f := range fns {
+		eachInstr(f, func(ins ssa.Instruction) {
+			for _, op := range ins.Operands(nil) {
+				g, ok := (*op).(*ssa.Global)
+				if !ok || g.Pkg == nil || !strings.HasPrefix(g.Pkg.Pkg.Path(), modPath) {
+					continue
+				}
+				name := globalName(g)
+				if seen[name+"|"+c.fname(f)] {
+					continue
+				}
+				seen[name+"|"+c.fname(f)] = true
+				n++
+				construct := "package-level " + name + " is fixed after initialisation"
+				elem := g.Type().(*types.Pointer).Elem()
+				switch {
+				case containsSync(elem, 0):
+					c.fail(rule, c.fname(f), construct, ins.Pos(), "the result depends on "+name+", a package-level "+elem.String()+" that changes while the program runs (a cache or lock-protected table): what a call returns then depends on earlier calls, not only on the value it is given")
+				case written[name] != "":
+					c.fail(rule, c.fname(f), construct, ins.Pos(), "the result depends on package-level "+name+", which "+written[name]+" writes after initialisation: what a call returns then depends on earlier calls")
+				default:
+					c.ok(rule, c.fname(f), construct, ins.Pos(), "only read; written by no function outside init", "")
+				}
+			}
+		})
+	}
+	c.rep.Extra[rule+"_functions"] = len(fns)
+	if n < floor {
+		c.note("%s: %d uses of package-level variables in %d reachable functions", rule, n, len(fns))
+	}
+	if len(fns) < floor {
+		c.fail(rule, "-", "reachable functions", token.NoPos, fmt.Sprintf("only %d functions reachable from the entry points", len(fns)))
+	}
+}
+
+func containsSync(t types.Type, d int) bool {
+	if d > 4 {
+		return false
+	}
+	if nt, ok := t.(*types.Named); ok {
+		if p := nt.Obj().Pkg(); p != nil && (p.Path() == "sync" || p.Path() == "sync/atomic") {
+			return true
+		}
+	}
+	switch u := t.Underlying().(type) {
+	case *types.Struct:
+		for i := 0; i < u.NumFields(); i++ {
+			if containsSync(u.Field(i).Type(), d+1) {
+				return true
+			}
+		}
+	case *types.Pointer:
+		return containsSync(u.Elem(), d+1)
+	}
+	return false
 }
